@@ -106,7 +106,14 @@ def build(case):
     if case.get("nan"):
         kw[case["nan"]] = float("nan")   # not a number, hence not a positive number
     std = Standardiser(pool, **kw)
+    # another Standardiser with settings of its own lives next to it (built later, over another
+    # pool): every instance keeps to ITS limits
+    DECOYS.append(Standardiser(RecPool(supply=3.0, demand=1.0), minimum=-7, maximum=7, granularity=3, surplus=1.5, backlog=0.5))
+    del DECOYS[:-2]
     return pool, std
+
+
+DECOYS = []
 
 
 def safe(fn):
